@@ -338,6 +338,8 @@ func genStress(rng *hx.Rng, kind string, scale int) string {
 		return fmt.Sprintf("stress sortedrace %s %d %d", hx.Pick(rng, []string{"plain", "less"}), rng.Range(20, 1500), seed)
 	case "evict":
 		return fmt.Sprintf("stress evict %d %d", it(10, 60), seed)
+	case "evictsame":
+		return fmt.Sprintf("stress evictsame %d 8 %d", rng.Range(50, 400), seed)
 	}
 
 	return fmt.Sprintf("stress wg %d %d %d", rng.Range(2, 4), it(20, 300), seed)
@@ -375,6 +377,8 @@ func main() {
 		{"ss new less", "ss window"},
 		// the SortedSet lock inversion (repaired): Add/Delete of an element against updates of its weight
 		{"stress sortedrace plain 1500 1", "stress sortedrace less 1500 2"},
+		// concurrent EvictionEvent callers per fresh slot must share one event (GetOrCreate must re-check under its lock)
+		{"stress evictsame 4000 8 1"},
 	}
 	for _, c := range corpus {
 		runCase(r, 0, c)
@@ -385,7 +389,7 @@ func main() {
 		rng, sub := r.Rng.Fork()
 		runCase(r, sub, gens[i%len(gens)](rng, rng.Range(25, 40)))
 	}
-	kinds := []string{"dvar", "dvar", "inherit", "dset", "sub", "counter", "sorted", "sorted", "sortedrace", "evict", "wg"}
+	kinds := []string{"dvar", "dvar", "inherit", "dset", "sub", "counter", "sorted", "sorted", "sortedrace", "evict", "evictsame", "wg"}
 	nstress := 150 * r.Scale
 	if r.Scale > 1 {
 		nstress *= 4 // thorough: spend the budget on interleavings
